@@ -21,8 +21,7 @@ if not ok:
 ok, out = ck.genmodel()
 if not ok:
     broken.append(("genmodel", out[-3000:]))
-PROOFS = ["Proofs/C19.vo", "Proofs/C19_Layout.vo", "Proofs/C19_Optimize.vo", "Examples/C19.vo"]
-PROOFS = [p for p in PROOFS if os.path.exists(os.path.join(COQ, p[:-1]))]
+PROOFS = ["Proofs/C19_Main.vo", "Examples/C19.vo"]
 ok, out = ck.coq_make(["Model/C19_Check.vo"] + PROOFS)
 if not ok:
     broken.append(("coq-make", out[-3000:]))
@@ -31,10 +30,9 @@ if not ok:
         ck.violation("coq-model-broken", "Coq model of C19 does not compile (generated tables no longer fit the model)",
                      {"log": out2[-3000:]}, no_input=True)
         bail("model did not compile")
-if os.path.exists(os.path.join(COQ, "Props/C19.v")):
-    ok, out = ck.coq_props()
-    if not ok:
-        broken.append(("Props/C19.v", out[-3000:]))
+ok, out = ck.coq_props()
+if not ok:
+    broken.append(("Props/C19.v", out[-3000:]))
 
 ck.log("coq theorems re-checked (broken: %s)" % [b[0] for b in broken])
 # 2. implementation: gcsizes in-process, the commands built from the working tree, the compiler
@@ -51,7 +49,7 @@ if exe is None:
     ck.violation("harness-build", "harness does not build against /repo", {"log": out[-3000:]}, no_input=True)
     bail("harness build failed")
 res = os.path.join(work, "out.json")
-ntypes, nextra = (1500, 3000) if ck.thorough() else (60, 240)
+ntypes, nextra = (600, 3000) if ck.thorough() else (40, 200)
 env = dict(GOENV); env["VERIF_REPO"] = REPO
 rc, out = sh([exe, "-work", work, "-out", res, "-seed", str(ck.seed), "-n", str(ntypes), "-extra", str(nextra), "-bin", bindir], timeout=3000, env=env)
 if rc != 0:
@@ -129,6 +127,11 @@ def describe(c):
             "structlayout": lines(c["Lay"]), "optimize": lines(c["Opt"]), "optimize_r": lines(c["OptR"]),
             "rerun": "put the declaration (with the N* declarations it uses, see harness/cmd/hc19/gen.go, seed %d) in a package; structlayout -json . %s | structlayout-optimize -json" % (ck.seed, c["Name"])}
 
+bad386 = sorted([c for c in cases if c.get("Arch386", "").startswith("mismatch")], key=lambda c: (c["Nodes"], c["Index"]))
+for c in bad386[:2]:
+    ck.violation("gcsizes386:%s" % c["Src"].replace(" ", "_"),
+                 "go/gcsizes with WordSize=MaxAlign=4 disagrees with the GOARCH=386 compiler: type %s: %s (%d failing types of %d)" % (c["Src"], c["Arch386"], len(bad386), len(cases)),
+                 {"type": "type %s %s" % (c["Name"], c["Src"]), "gcsizes_4_4": c["Gcsizes"][1], "compiler": c["Arch386"]})
 if V:
     # one report per kind of failure: the smallest failing type (plus every directed case, whose keys are seed-independent)
     bykind = {}
@@ -140,7 +143,7 @@ if V:
         for i in idxs[:2]:
             c = cases[i]
             ck.violation("%s:%s" % (d.replace(" ", "-"), c["Src"].replace(" ", "_")), "%s: type %s (%d failing types of %d)" % (WHAT.get(d, d), c["Src"], len(idxs), len(cases)), describe(c))
-elif M and evalfail is None:
+elif M and evalfail is None and not bad386:
     i, ds = M[0]
     ck.violation("model-mismatch", "model and implementation disagree although the property holds on all explored types: %s on %s" % (ds, cases[i]["Src"]),
                  {"mismatches": [(cases[i]["Src"], ds) for i, ds in M[:20]], "first": describe(cases[i])}, no_input=True)
@@ -159,16 +162,17 @@ ck.trusted += ["hc19 (/verif/harness/cmd/hc19): type generator, name->index-path
                "the Go toolchain /repo builds with, as the reference for unsafe.Sizeof/Alignof/Offsetof (amd64)"]
 ck.assume += ["sort.Sort returns a permutation of its input in which no later element is Less than an earlier one (theorems quantify over every such permutation)",
               "gc layout rules as transcribed in Model/C19.v gc_sa (compared with the running compiler on every generated type)",
-              "theorems cover WordSize = MaxAlign in {4, 8} (386/arm and amd64/arm64 settings); the commands are exercised on the host architecture only"]
+              "theorems cover WordSize = MaxAlign in {4, 8} (386/arm and amd64/arm64 settings); the commands are exercised on the host architecture only; the 4/4 setting of gcsizes is compared with the 386 compiler at compile time"]
 ck.finish({
-    "evaluations": len(cases) * 5 + len(tool) * 3,
+    "evaluations": len(cases) * 6 + len(tool) * 3,
     "distinct_nontrivial": len(distinct),
-    "rule": "one case = one generated struct type laid out by gcsizes (4 word-size/max-align settings, in-process) and by the compiler (compiled and run program: Sizeof/Alignof/Offsetof of the struct, its fields and all leaves); the first `tool_types` of them also by structlayout -json and by structlayout-optimize with and without -r (commands built from the working tree). evaluations = 5 per type (4 gcsizes settings + reference rules vs compiler) + 3 per tool type. non-trivial = the compiler's layout has padding, a nested struct or a zero-size field; distinct by the type's structure",
+    "rule": "one case = one generated struct type laid out by gcsizes (4 word-size/max-align settings, in-process) and by the compiler (compiled and run program: Sizeof/Alignof/Offsetof of the struct, its fields and all leaves); the first `tool_types` of them also by structlayout -json and by structlayout-optimize with and without -r (commands built from the working tree). every type's gcsizes{4,4} size/alignment/offsets are also asserted as array lengths in a package compiled with GOARCH=386. evaluations = 6 per type (4 gcsizes settings + reference rules vs compiler + 386 assertions) + 3 per tool type. non-trivial = the compiler's layout has padding, a nested struct or a zero-size field; distinct by the type's structure",
     "samples": [{"type": c["Src"], "compiler": c["Compiler"], "structlayout": c["Lay"]["Entries"]} for c in cases[18:21]],
     "types": len(cases), "tool_types": len(tool), "directed_types": 18,
     "with_padding": sum(1 for c in cases if has_pad(c)), "tool_with_padding": sum(1 for c in tool if has_pad(c)),
     "with_nested_struct": sum(1 for c in cases if has_nested(c)), "tool_with_nested_struct": sum(1 for c in tool if has_nested(c)),
     "with_zero_size_field": sum(1 for c in cases if has_zero(c)), "tool_with_zero_size_field": sum(1 for c in tool if has_zero(c)),
     "with_trailing_zero_size": sum(1 for c in cases if leaves(c) and leaves(c)[-1]["Size"] == 0),
+    "checked_against_386_compiler": sum(1 for c in cases if c.get("Arch386")), "mismatch_386": len(bad386),
     "model_mismatches": len(M), "property_violations": len(V),
 })
